@@ -356,6 +356,11 @@ class Unit:
                 ms = [ms[nth - 1]]
             if len(ms) != 1:
                 raise X.AnchorError('fn %s: proof anchor /%s/ matched %d times' % (name, rx, len(ms)))
+            if ms[0].re.groups >= 1 and ms[0].group(1) is not None:
+                # the anchor names the exact spot with a capture group
+                inserts.append(((ms[0].start(1) if where_ == 'before' else ms[0].end(1)), ('proof', None, lines)))
+                rw.bump('R7')
+                continue
             if where_ == 'before':
                 inserts.append((ms[0].start(), ('proof', None, lines)))
                 rw.bump('R7')
